@@ -327,6 +327,7 @@ func runNames(in *bufio.Scanner, w *bufio.Writer) {
 	var a, b *CPTVFileRecorder
 	var dir string
 	nfull := 0
+	nclash := 0
 	for in.Scan() {
 		line := in.Text()
 		fmt.Fprintln(w, ">", line)
@@ -392,6 +393,43 @@ func runNames(in *bufio.Scanner, w *bufio.Writer) {
 				_, merr := os.Stat(mainFile)
 				fmt.Fprintf(w, "< full k=%d ret=%s oldleft=%d mainkept=%v\n", k, vOk(err), left, merr == nil)
 			}()
+		case "clash": // clash <ms> <frames>: finished recordings already bear every name of the next <ms> milliseconds (the clock was set back)
+			ms, n := vAtoi(f[1]), vAtoi(f[2])
+			nclash++
+			cdir := filepath.Join(dir, fmt.Sprintf("clash_%d", nclash))
+			os.MkdirAll(cdir, 0755)
+			conf := &Config{OutputDir: cdir, DeviceName: "verif", DeviceID: 7, MinDiskSpace: 1,
+				Motion: goconfig.DefaultThermalMotion("lepton3")}
+			rec := NewCPTVFileRecorder(conf, cam, "flir", "lepton3", 123, "1.2.3")
+			vGuard(w, "clash", func() {
+				t0 := time.Now()
+				old := map[string]string{}
+				for i := -2; i <= ms; i++ {
+					name := t0.Add(time.Duration(i)*time.Millisecond).Format("20060102.150405.000") + ".cptv"
+					old[name] = fmt.Sprintf("finished recording %d", i)
+					os.WriteFile(filepath.Join(cdir, name), []byte(old[name]), 0644)
+				}
+				if err := rec.StartRecording(cptvframe.NewFrame(cam), 1234); err != nil {
+					fmt.Fprintln(w, "< clash start-error")
+					return
+				}
+				tn := rec.writer.Name()
+				for i := 0; i < n; i++ {
+					rec.WriteFrame(cptvframe.NewFrame(cam))
+				}
+				serr := rec.StopRecording()
+				kept := true
+				for name, want := range old {
+					if got, err := os.ReadFile(filepath.Join(cdir, name)); err != nil || string(got) != want {
+						kept = false
+					}
+				}
+				fn := recordingFinalName(tn)
+				_, clash := old[filepath.Base(fn)]
+				c, _, derr := vDecodeCount(fn)
+				ents, _ := os.ReadDir(cdir)
+				fmt.Fprintf(w, "< clash kept=%v distinct=%v stop=%s decode=%s frames=%d files=%d\n", kept, !clash, vOk(serr), vOk(derr), c, len(ents)-len(old))
+			})
 		case "ss": // ss <frames for the first recorder> <frames for the second>
 			bg := cptvframe.NewFrame(cam)
 			vGuard(w, "pair", func() {
@@ -456,5 +494,6 @@ func genNames(r *vRng, tier string, w *bufio.Writer) {
 			fmt.Fprintf(w, "ss %d %d\n", r.pick(1, 3, 21), r.pick(1, 2, 21))
 		}
 		fmt.Fprintf(w, "full %d\n", 1+id%3)
+		fmt.Fprintf(w, "clash %d %d\n", r.pick(20, 150, 400), r.pick(1, 5, 21))
 	}
 }
